@@ -86,6 +86,7 @@ pub fn replay(path: &str) -> i32 {
         Some("net-history") => lifecycle_net::replay_net(scn),
         Some("client-session") => client_sm::replay_session(scn),
         Some("client-sm") => client_sm::replay(scn),
+        Some("client-tie") => client_sm::replay_tie(scn),
         Some("client-stream") => framing::replay_client_stream(scn),
         k => {
             eprintln!("unknown replay kind {k:?}");
